@@ -17,9 +17,13 @@ def sh(cmd, **kw):
     return subprocess.run(cmd, capture_output=True, text=True, **kw)
 
 
+SRC = "/tmp/seed/out"
+TAG = ""
+
+
 def confirm(pid, n):
-    src = f"/tmp/seed/out/{pid}/{n}"
-    name = f"{pid}-{n}"
+    src = f"{SRC}/{pid}/{n}"
+    name = f"{pid}-{TAG}{n}"
     wt = f"/tmp/seedchk_{name}"
     out = {"property": pid, "name": name}
     sh(["git", "-C", "/repo", "worktree", "remove", "--force", wt])
@@ -47,8 +51,14 @@ def confirm(pid, n):
 
 
 def main():
-    for pid in sys.argv[1:]:
-        base = f"/tmp/seed/out/{pid}"
+    global SRC, TAG
+    args = sys.argv[1:]
+    if args and args[0] == "--src":
+        SRC, args = args[1], args[2:]
+    if args and args[0] == "--tag":
+        TAG, args = args[1], args[2:]
+    for pid in args:
+        base = f"{SRC}/{pid}"
         if not os.path.isdir(base):
             continue
         for n in sorted(os.listdir(base)):
